@@ -73,8 +73,8 @@ func verifC09(nops int) {
 	t0 := vkit.WithKey(vkit.Tx("t0", nil, nil), "c09", "k1", nil, 0, []byte("one"))
 	vkit.WithKey(t0, "c09", "k2", nil, 0, []byte("two"))
 	tdel := vkit.WithKey(vkit.Tx("tdel", nil, nil), "c09", "k2", []byte("t0"), 1, []byte{0})
-	// the contract's address CT holds 4 tokens; A keeps 5 to pay fees with
-	t1 := vkit.Tx("t1", []*protos.TxInput{vkit.In(e.RootTx.Txid, 0, "A", big.NewInt(9))}, []*protos.TxOutput{vkit.Out("CT", big.NewInt(4), 0), vkit.Out("A", big.NewInt(5), 0)})
+	// the contract's address CT holds two outputs of 2 tokens; A keeps 5 to pay fees with
+	t1 := vkit.Tx("t1", []*protos.TxInput{vkit.In(e.RootTx.Txid, 0, "A", big.NewInt(9))}, []*protos.TxOutput{vkit.Out("CT", big.NewInt(2), 0), vkit.Out("CT", big.NewInt(2), 0), vkit.Out("A", big.NewInt(5), 0)})
 	b1 := vkit.Block(e.Root.Blockid, 1, []*lpb.Transaction{vkit.Coinbase("cb1", "M", []byte{7}), t0, t1})
 	vrt.Assert(e.L.ConfirmBlock(b1, false).Succ && s.Play(b1.Blockid) == nil, "prior-state-built")
 	b2 := vkit.Block(b1.Blockid, 2, []*lpb.Transaction{vkit.Coinbase("cb2", "M", []byte{7}), tdel})
@@ -156,15 +156,15 @@ func verifC09(nops int) {
 	reqs := []*protos.InvokeRequest{{ModuleName: "xkernel", ContractName: "$c09", MethodName: "run", Args: map[string][]byte{"v": val}}}
 	before := verifC09Read(s)
 	resp, perr := chain.PreExec(rctx, reqs, "A", nil)
-	// the program fails at an explicit failure, or at a second transfer: the contract's address holds one
-	// output, which the first transfer selects and locks (its change is not spendable inside the same call)
+	// the program fails at an explicit failure, or at a third transfer: the contract's address holds two
+	// outputs, each transfer selects and locks one (the change is not spendable inside the same call)
 	fails := false
 	ntr := 0
 	for _, op := range ops {
 		if op.kind == 7 {
 			ntr++
 		}
-		if op.kind == 4 || ntr > 1 {
+		if op.kind == 4 || ntr > 2 {
 			fails = true
 		}
 	}
@@ -241,7 +241,7 @@ func verifC09(nops int) {
 	pay := []int64{0, 1, 2, 3, 5}[vrt.Choice("pay", 5)]
 	tx := &lpb.Transaction{Version: 3, Initiator: "A", Nonce: "n1", Timestamp: 7, Desc: []byte("c09"),
 		ContractRequests: resp.Requests, TxInputsExt: resp.Inputs, TxOutputsExt: resp.Outputs,
-		TxInputs: []*protos.TxInput{vkit.In([]byte("t1"), 1, "A", big.NewInt(5))}}
+		TxInputs: []*protos.TxInput{vkit.In([]byte("t1"), 2, "A", big.NewInt(5))}}
 	if pay > 0 {
 		tx.TxOutputs = append(tx.TxOutputs, vkit.Out("$", big.NewInt(pay), 0))
 	}
@@ -259,6 +259,7 @@ func verifC09(nops int) {
 		}
 	}
 	vrt.Cover("program-with-transfer", transfers > 0)
+	vrt.Cover("program-with-two-equal-transfers", transfers == 2)
 	vrt.Assert((len(resp.UtxoOutputs) > 0) == (transfers > 0), "pre-execution-reports-contract-transfers")
 	// a single mutation of the assembled transaction (0: none); id and signature are recomputed so
 	// that only the read / write-set logic can refuse it
@@ -295,7 +296,7 @@ func verifC09(nops int) {
 			r.ResourceLimits = []*protos.ResourceLimit{{Type: protos.ResourceType_XFEE, Limit: used - 1}}
 			tx.ContractRequests = []*protos.InvokeRequest{&r}
 		}
-	case 7: // a token output the contract produced is redirected to the initiator
+	case 7: // a token output the contract produced is redirected to the initiator (with two equal transfers: one of the twins)
 		if transfers == 0 {
 			applicable = false
 		} else {
@@ -308,8 +309,8 @@ func verifC09(nops int) {
 		if transfers != 0 {
 			applicable = false
 		} else {
-			tx.TxInputs = append(append([]*protos.TxInput{}, tx.TxInputs...), vkit.In([]byte("t1"), 0, "CT", big.NewInt(4)))
-			tx.TxOutputs = append(append([]*protos.TxOutput{}, tx.TxOutputs...), vkit.Out("A", big.NewInt(4), 0))
+			tx.TxInputs = append(append([]*protos.TxInput{}, tx.TxInputs...), vkit.In([]byte("t1"), 0, "CT", big.NewInt(2)))
+			tx.TxOutputs = append(append([]*protos.TxOutput{}, tx.TxOutputs...), vkit.Out("A", big.NewInt(2), 0))
 		}
 	case 6: // another argument than the one pre-executed
 		if !argMatters {
